@@ -390,6 +390,10 @@ def tracer_data():
     hf = "{0._secret}|{0.pub}".format
     data.update({"hf": hf, "hd": {"f": hf}, "hl": [hf], "hm": "{x._secret}|{x.pub}".format_map,
                  "hmk": Markup("{0._secret}|{0.pub}").format, "ht": (hf,)})
+    import functools
+    data.update({"strT": str, "MarkupT": Markup, "huf": str.format, "hufm": str.format_map, "hpf": functools.partial(hf),
+                 "hpuf": functools.partial(str.format, "{0._secret}|{0.pub}"), "hpm": functools.partial("{x._secret}|{x.pub}".format_map),
+                 "hmuf": Markup.format})
     data["mk"] = {n: Markup(n) for n in PRIVATE_NAMES + PUBLIC_NAMES + ["nosuchattr_zz"]}       # Markup (a str subclass) as the key
     # attribute NAMES of adversarial value kinds, supplied by the render data
     for i, (kind, mkname) in enumerate(NAME_KINDS.items()):
@@ -522,4 +526,16 @@ HOST_FORMAT = {
     "namespace": "{% set ns = namespace(g=hf) %}{{ ns.g(o) }}",
     "map-attribute": "{{ ([hd]|map(attribute='f')|first)(o) }}",
     "public-control": "{{ hf(d.o) }}",
+    # the UNBOUND format methods (the format string is an argument) and functools.partial of format methods
+    "unbound-via-type": "{{ strT.format('{0._secret}|{0.pub}', o) }}",
+    "unbound-map-via-type": "{{ strT.format_map('{x._secret}|{x.pub}', {'x': o}) }}",
+    "unbound-direct": "{{ huf('{0._secret}|{0.pub}', o) }}",
+    "unbound-map-direct": "{{ hufm('{x._secret}|{x.pub}', {'x': o}) }}",
+    "unbound-attr-filter": "{{ (strT|attr('format'))('{0._secret}|{0.pub}', o) }}",
+    "unbound-kwargs": "{{ huf('{v._secret}|{v.pub}', v=o) }}",
+    "partial-bound": "{{ hpf(o) }}",
+    "partial-unbound": "{{ hpuf(o) }}",
+    "partial-format-map": "{{ hpm({'x': o}) }}",
+    "markup-unbound-via-type": "{{ MarkupT.format(('{0._secret}|{0.pub}'|safe), o) }}",
+    "markup-unbound-direct": "{{ hmuf(('{0._secret}|{0.pub}'|safe), o) }}",
 }
